@@ -407,3 +407,51 @@ _add(Cond('group_interface_forms', [('i0', 'int'), ('i1', 'int'), ('i2', 'int'),
         functions=['array_to_groups_and_locations'],
         bounds='4 keys symbolic in 0..1; grouping form symbolic: Series by value / Series by label depth / Frame by two label depths / FrameGO by column / iter_group + apply / axis 1 of a float frame; tie tape',
         route='every grouping interface: partition with constant key, ascending key order, rows (columns) and their order kept', timeout=400))
+
+
+M = 'NaN'
+
+
+# ---------------------------------------------------------------- missing group keys (NaN): never merged into a finite group
+
+def body_group_nan_keys(env, k0, k1, k2, k3, as_list, axis_flag, **kw):
+    from vf import rt
+    sel = [concretize(v, 0, 2) for v in (k0, k1, k2, k3)]
+    as_list, axis = bool(as_list), (1 if axis_flag else 0)
+    tape = [bool(kw[f'tape{i}']) for i in range(2)] + [False, False]
+
+    def run():
+        sf = env.sf
+        if env.model:
+            env.nondet.install(list(tape))
+        table = (env.nan, 0.5, 2.5)
+        keys = [table[s] for s in sel]
+        ref_keys = [(M if s == 0 else table[s]) for s in sel]
+        labels = [100, 101, 102, 103]
+        if axis == 0:
+            f = sf.Frame.from_items((('k', env.array(keys, 'float64')), ('v', env.array([1.0, 2.0, 3.0, 4.0], 'float64'))), index=labels)
+            it = f.iter_group_items(['k'] if as_list else 'k')
+            members = lambda sub: env.obs(sub.index.values.tolist())      # noqa: E731
+        else:
+            f = sf.Frame.from_items(((labels[c], env.array([keys[c], 1.0 + c], 'float64')) for c in range(4)), index=('k', 'v'))
+            it = f.iter_group_items(['k'] if as_list else 'k', axis=1)
+            members = lambda sub: env.obs(sub.columns.values.tolist())    # noqa: E731
+        finite, nan_members, nan_labelled = [], [], True
+        for g, sub in it:
+            gv = g[0] if isinstance(g, tuple) else g
+            gv = env.obs(gv)
+            if gv == M:
+                nan_members += members(sub)
+            else:
+                finite.append([gv, members(sub)])
+        exp_finite = [[k, [labels[i] for i in range(4) if ref_keys[i] == k]] for k in sorted(set(k for k in ref_keys if k != M))]
+        exp_nan = [labels[i] for i in range(4) if ref_keys[i] == M]
+        return [finite, sorted(nan_members)], [exp_finite, exp_nan]
+    return rt.untraced(run)
+
+
+_add(Cond('frame_group_nan_keys', [('k0', 'int'), ('k1', 'int'), ('k2', 'int'), ('k3', 'int'), ('as_list', 'bool'), ('axis_flag', 'bool')], body_group_nan_keys, tape=2,
+        ranges={'k0': (0, 2), 'k1': (0, 2), 'k2': (0, 2), 'k3': (0, 2)},
+        functions=['Frame._axis_group_loc_items'],
+        bounds='4 grouped lines with float keys symbolic over (NaN, 0.5, 2.5); element key (sort-and-slice path) or list key (unique/mask path), both axes (symbolic); tie tape',
+        route='Frame.iter_group_items with missing keys: the finite keys partition exactly the lines that hold them (ascending, order kept); lines with a missing key appear only in groups labelled NaN', timeout=400))
